@@ -2111,7 +2111,20 @@ func (c *Conn) bufferHandshakeRecord(
 	markPacketAsValid func() bool,
 ) (packetOutcome, bool, bool) {
 	c.syncFragmentBufferHandshakeSequence()
-	isHandshake, isRetransmit, err := c.fragmentBuffer.Push(bytes.Clone(buf))
+	// Once the peer sends protected records, an unprotected handshake record
+	// can only repeat a message of an earlier flight. Anything else in it is
+	// unauthenticated junk: stored, it would grow the reassembly buffer and the
+	// transcript cache without bound and make a finished endpoint repeat its
+	// last flight.
+	repeatOnly := header.Epoch == 0 && dtlsstate.CommonState(c.state).RemoteEpoch() != 0
+	push := c.fragmentBuffer.Push
+	if repeatOnly {
+		push = c.fragmentBuffer.PushRetransmission
+	}
+	isHandshake, isRetransmit, err := push(bytes.Clone(buf))
+	if err == nil && isHandshake && repeatOnly && !isRetransmit {
+		return packetOutcome{}, true, false
+	}
 	if err != nil {
 		// Decode error must be silently discarded
 		// [RFC6347 Section-4.1.2.7]
